@@ -124,7 +124,13 @@ impl LanguageServer for Server {
                 return Ok(None);
             };
 
+            #[cfg(feature = "verif")]
+            let _released = crate::verif::OnDrop(crate::verif::Ev::VfsReadReleased("definition"));
+            #[cfg(feature = "verif")]
+            crate::verif::point(crate::verif::Ev::VfsReadWant("definition"));
             let vfs = snap.vfs.read().unwrap();
+            #[cfg(feature = "verif")]
+            crate::verif::point(crate::verif::Ev::VfsReadAcquired("definition"));
             let lsp_location = to_proto::location(&vfs, &line_index, location);
             Ok(Some(GotoDefinitionResponse::Scalar(lsp_location)))
         });
@@ -141,7 +147,13 @@ impl LanguageServer for Server {
             let Some(location_list) = snap.analysis.references(pos) else {
                 return Ok(None);
             };
+            #[cfg(feature = "verif")]
+            let _released = crate::verif::OnDrop(crate::verif::Ev::VfsReadReleased("references"));
+            #[cfg(feature = "verif")]
+            crate::verif::point(crate::verif::Ev::VfsReadWant("references"));
             let vfs = snap.vfs.read().unwrap();
+            #[cfg(feature = "verif")]
+            crate::verif::point(crate::verif::Ev::VfsReadAcquired("references"));
             let lsp_location_list = location_list
                 .into_iter()
                 .map(|it| to_proto::location(&vfs, &line_index, it))
@@ -224,7 +236,13 @@ impl LanguageServer for Server {
                 return Ok(None);
             };
 
+            #[cfg(feature = "verif")]
+            let _released = crate::verif::OnDrop(crate::verif::Ev::VfsReadReleased("document_link"));
+            #[cfg(feature = "verif")]
+            crate::verif::point(crate::verif::Ev::VfsReadWant("document_link"));
             let vfs = snap.vfs.read().unwrap();
+            #[cfg(feature = "verif")]
+            crate::verif::point(crate::verif::Ev::VfsReadAcquired("document_link"));
             let lsp_links = links
                 .into_iter()
                 .map(|it| to_proto::document_link(&vfs, &line_index, it))
@@ -272,11 +290,25 @@ impl LanguageServer for Server {
 impl Server {
     fn set_file_content(&mut self, uri: &Url, text: &str) {
         let path = UrlExt::to_file_path(uri);
+        #[cfg(feature = "verif")]
+        let _released = crate::verif::OnDrop(crate::verif::Ev::VfsWriteReleased);
+        #[cfg(feature = "verif")]
+        crate::verif::point(crate::verif::Ev::VfsWriteWant);
         let mut vfs = self.vfs.write().unwrap();
+        #[cfg(feature = "verif")]
+        crate::verif::point(crate::verif::Ev::VfsWriteAcquired);
         let file_id = vfs.assign_or_get_file_id(path);
         let text = Arc::from(text);
+        #[cfg(feature = "verif")]
+        crate::verif::point(crate::verif::Ev::SalsaWriteWant("set_file_content"));
         self.host.set_file_content(file_id, text);
+        #[cfg(feature = "verif")]
+        crate::verif::point(crate::verif::Ev::SalsaWriteDone("set_file_content"));
+        #[cfg(feature = "verif")]
+        crate::verif::point(crate::verif::Ev::SalsaWriteWant("set_root_file"));
         self.host.set_root_file(&mut *vfs, file_id);
+        #[cfg(feature = "verif")]
+        crate::verif::point(crate::verif::Ev::SalsaWriteDone("set_root_file"));
     }
 
     fn update_diagnostics(&mut self) {
@@ -290,7 +322,13 @@ impl Server {
                     .map(|diag| to_proto::diagnostic(&line_index, diag))
                     .collect();
 
+                #[cfg(feature = "verif")]
+                let _released = crate::verif::OnDrop(crate::verif::Ev::VfsReadReleased("diagnostics"));
+                #[cfg(feature = "verif")]
+                crate::verif::point(crate::verif::Ev::VfsReadWant("diagnostics"));
                 let vfs = snap.vfs.read().unwrap();
+                #[cfg(feature = "verif")]
+                crate::verif::point(crate::verif::Ev::VfsReadAcquired("diagnostics"));
                 let file_path = vfs.path_for_file(&file_id);
                 let file_uri = UrlExt::from_file_path(file_path);
 
@@ -298,6 +336,8 @@ impl Server {
                 client
                     .publish_diagnostics(params)
                     .expect("failed to publish diagnostics");
+                #[cfg(feature = "verif")]
+                crate::verif::point(crate::verif::Ev::Published);
             }
         });
     }
@@ -316,6 +356,17 @@ impl Server {
         let snap = ServerSnapshot {
             analysis: self.host.analysis(),
             vfs: Arc::clone(&self.vfs),
+        };
+        #[cfg(feature = "verif")]
+        let f = {
+            // the id is assigned on the spawning thread so that it does not depend on the pool
+            let id = crate::verif::next_task_id();
+            crate::verif::point(crate::verif::Ev::SnapshotCreated(id));
+            move |snap: ServerSnapshot, params: P| {
+                crate::verif::point(crate::verif::Ev::TaskStart(id));
+                let _ended = crate::verif::OnDrop(crate::verif::Ev::TaskEnd(id));
+                f(snap, params)
+            }
         };
         task::spawn_blocking(move || f(snap, params))
     }
